@@ -92,6 +92,23 @@ def burst_case(procs=8, clients=6, rounds=16):
     return {"kind": "gated", "gate": "", "procs": procs, "nds": 1, "groups": [], "readers": 0, "threads": threads}
 
 
+def reuse_case():
+    """one long-lived Transaction object, refilled with dataset sets of equal size but other names"""
+    def tx(ds, r=1):
+        return {"t": "txn", "reuse": r, "parts": [part(d, 1) for d in ds]}
+    return {"kind": "coretxn", "procs": 2, "nds": 4, "groups": [], "readers": 0,
+            "threads": [[tx([1, 2]), tx([1, 3]), tx([3, 2]), tx([4], 2), tx([1], 2), tx([1, 2, 3], 3), tx([2, 3, 4], 3)],
+                        [{"t": "batch", "parts": [part(1, 1)]}]]}
+
+
+def delread_case(procs=8):
+    """create/delete loop on a spare dataset while 8 readers look up an entity with thousands of versions"""
+    ops = []
+    for i in range(150):
+        ops += [{"t": "create", "d": 120, "isnew": True}, {"t": "delete", "d": 120, "present": True}]
+    return {"kind": "gated", "gate": "", "procs": procs, "nds": 1, "versions": 3000, "groups": [], "readers": 8, "threads": [ops]}
+
+
 def txnfail_case():
     """transactions naming an existing and a missing dataset, each followed by a write to the existing one"""
     ops = []
@@ -132,7 +149,7 @@ def small_mix():
 
 def witness_cases():
     return [forced_case(2), forced_case(2, TWIN_UP, TWIN_LO, 1), coretxn_case(1), coretxn_case(0), small_mix(), race_case(2), race_case(1), cocreate_case(2), cocreate_case(8),
-            txnfail_case(), nsrace_case(2), renrace_case(2), burst_case(8), burst_case(2, 4, 8)]
+            txnfail_case(), nsrace_case(2), renrace_case(2), burst_case(8), burst_case(2, 4, 8), reuse_case(), delread_case(8)]
 
 
 def corpus_cases():
@@ -178,7 +195,7 @@ def gen_mix(rng, big=False):
             elif r < 55:
                 d = rng.range(1, nds)
                 new = rng.range(0, 2)
-                ops.append({"t": "txn", "parts": [part(d, new, new == 0 or rng.chance(1, 2))]})
+                ops.append({"t": "txn", "reuse": 1, "parts": [part(d, new, new == 0 or rng.chance(1, 2))]})
             elif r < 59:
                 # rejected transaction: one shared dataset and one that does not exist (insertion order random)
                 d = rng.range(1, nds)
